@@ -31,9 +31,16 @@ func seamBases(ts string, full bool) []spec.Info {
 	case "51":
 		return []spec.Info{mono8, mono12}
 	}
-	out := []spec.Info{mono8, mono16}
+	// every codec meets one- and three-component frames, an 8-bit and a 16-bit container,
+	// and a precision that does not fill its container (12 in 16)
+	rgb12 := spec.Info{W: 5, H: 6, SPP: 3, BA: 16, BS: 12, HB: 11, PI: "RGB"}
+	out := []spec.Info{mono8, mono16, rgb8, rgb12}
+	if ts == "rle" {
+		rgb12.BS, rgb12.HB = 16, 15
+		out = []spec.Info{mono8, mono16, rgb8, rgb12}
+	}
 	if full {
-		out = append(out, rgb8, mono12)
+		out = append(out, mono12, spec.Info{W: 7, H: 3, SPP: 3, BA: 8, BS: 5, HB: 4, PI: "RGB"}, spec.Info{W: 4, H: 4, SPP: 1, BA: 16, BS: 10, HB: 9, PI: "MONOCHROME2"})
 	}
 	return out
 }
